@@ -71,7 +71,7 @@ D = {
   rule="setcallback placed before / between / after in-flight items and the peer's close (the schedule decides where relative to the receiver thread), endings by close, error, end of body and gateway exit, with and without endmarker, callback channels whose object was dropped, two callback channels at once",
   ntext="non-trivial = the callback was invoked at least twice",
   known="None"),
-"c18": dict(post='ctx.coverage["chanlife_replay"] = life', extra='life = gc.chanlife_part(ctx, ["C18.", "C10.", "C03.", "C02."], 4 if ctx.quick else 6)',title="C18 -- channel ids never collide and channels travel over channels intact",
+"c18": dict(post='ctx.coverage["chanlife_replay"] = life\n    ctx.coverage["apalache_inductive_invariant"] = gc.chanids_inductive(ctx)', extra='life = gc.chanlife_part(ctx, ["C18.", "C10.", "C03.", "C02."], 4 if ctx.quick else 6)',title="C18 -- channel ids never collide and channels travel over channels intact",
   cfgs='[("MCChanIds", "CI"), "GW_data"] if ctx.quick else [("MCChanIds", "CI"), ("MCChanIds", "CI_big"), "GW_data", "GW_data_big"]', mutants='[("MCChanIds", "CI_nolock")]',
   fam="c18_programs(rng, 8 if ctx.quick else 60)", own='["C18.", "C02.", "C10.dropped-callback"]',
   line='["new", "newchannel", "remote_exec", "load_channel", "_no_longer_opened", "close", "__init__", "setcallback", "_local_close"]',
